@@ -139,6 +139,35 @@ pub mod sched {
         st.order.push(id);
     }
 
+    /// A choice of the runtime that is not "who runs next": how a `fold` / `reduce` splits its items into sequential runs (rayon
+    /// splits adaptively - where a run ends depends on which worker was idle when). `n` alternatives, 0 = the default; a choice
+    /// point of the execution like any other (replayed from the prefix, listed in `choices`). Outside an exploration, in pool
+    /// mode and in wide mode (fixed item order) the default is taken without a choice point.
+    pub fn choose(n: usize) -> usize {
+        if n < 2 || FIXED_ITEM_ORDER.load(std::sync::atomic::Ordering::SeqCst) {
+            return 0;
+        }
+        let mut g = STATE.lock().unwrap();
+        let st = match g.as_mut() {
+            Some(st) if st.active => st,
+            _ => return 0,
+        };
+        if st.regions < WARMUP.load(std::sync::atomic::Ordering::SeqCst) {
+            return 0;
+        }
+        let mut pick = 0usize;
+        if st.pos < st.prefix.len() {
+            pick = st.prefix[st.pos];
+            if pick >= n {
+                st.diverged = Some(format!("choice point {}: prefix asks for split {} of {}", st.pos, pick, n));
+                pick = 0;
+            }
+        }
+        st.pos += 1;
+        st.choices.push((pick, n));
+        pick
+    }
+
     /// Run `f` under the controlled scheduler, replaying `prefix` at the first choice points.
     pub fn run<R>(prefix: &[usize], f: impl FnOnce() -> R) -> (R, Outcome) {
         {
@@ -539,15 +568,49 @@ impl<'a, T: Send + 'a> Par<'a, T> {
     pub fn max(self) -> Option<T> where T: Ord { self.drive().into_iter().max() }
     pub fn any<F: Fn(T) -> bool + Send + Sync + 'a>(self, f: F) -> bool { self.map(f).drive().into_iter().any(|b| b) }
     pub fn all<F: Fn(T) -> bool + Send + Sync + 'a>(self, f: F) -> bool { self.map(f).drive().into_iter().all(|b| b) }
-    /// reduce combines in execution order (rayon requires an associative op; a non-commutative one shows)
-    pub fn reduce<ID: Fn() -> T + Send + Sync, OP: Fn(T, T) -> T + Send + Sync>(self, identity: ID, op: OP) -> T {
-        let indexed = self.indexed;
-        let _ = indexed;
-        self.drive().into_iter().fold(identity(), |a, b| op(a, b))
+    /// reduce: every sequential run of the chosen split (see `fold`) is reduced from `identity()`, the runs are combined from
+    /// left to right (rayon requires an associative op and a true identity; one that is not shows as a split-dependent result)
+    pub fn reduce<ID: Fn() -> T + Send + Sync + 'a, OP: Fn(T, T) -> T + Send + Sync + 'a>(self, identity: ID, op: OP) -> T {
+        let op = Arc::new(op);
+        let identity = Arc::new(identity);
+        let (op2, id2) = (op.clone(), identity.clone());
+        let runs = self.fold(move || id2(), move |a, b| op2(a, b)).drive();
+        runs.into_iter().fold(identity(), |a, b| op(a, b))
     }
+    /// fold: rayon folds every sequential run of items it happens to split off into one accumulator; WHERE it splits depends on
+    /// which workers were idle. The split is a choice point: for up to 5 items every set of boundaries (2^(n-1) alternatives,
+    /// default = one accumulator per item, the finest split), for more items three alternatives (finest, one single run, two
+    /// halves). A run is one task; its items are evaluated one after the other inside it.
     pub fn fold<A: Send + 'a, ID: Fn() -> A + Send + Sync + 'a, F: Fn(A, T) -> A + Send + Sync + 'a>(self, identity: ID, f: F) -> Par<'a, A> {
-        // one fold bucket per item (the finest split rayon may choose)
-        self.map(move |x| f(identity(), x))
+        let n = self.thunks.len();
+        // boundary after item i (0-based, i < n-1) <=> bit i of `cuts`
+        let cuts: u64 = if n <= 1 {
+            0
+        } else if n <= 5 {
+            let all = (1u64 << (n - 1)) - 1;
+            all & !(sched::choose(1usize << (n - 1)) as u64)
+        } else {
+            match sched::choose(3) {
+                0 => u64::MAX,
+                1 => 0,
+                _ => 1u64 << ((n / 2 - 1).min(63)),
+            }
+        };
+        let cut_after = |i: usize| if n > 5 && cuts != u64::MAX && cuts != 0 { i == n / 2 - 1 } else { cuts == u64::MAX || (i < 64 && cuts >> i & 1 == 1) };
+        let indexed = self.indexed;
+        let mut groups: Vec<Vec<Thunk<'a, T>>> = vec![Vec::new()];
+        for (i, t) in self.thunks.into_iter().enumerate() {
+            groups.last_mut().unwrap().push(t);
+            if i + 1 < n && cut_after(i) {
+                groups.push(Vec::new());
+            }
+        }
+        if n == 0 {
+            groups.clear();
+        }
+        let f = Arc::new(f);
+        let identity = Arc::new(identity);
+        Par { indexed, thunks: groups.into_iter().map(|g| { let (f, identity) = (f.clone(), identity.clone()); Box::new(move || Some(g.into_iter().filter_map(|t| t()).fold(identity(), |a, x| f(a, x)))) as Thunk<'a, A> }).collect() }
     }
     pub fn flat_map<R: Send + 'a, I: IntoIterator<Item = R>, F: Fn(T) -> I + Send + Sync + 'a>(self, f: F) -> Par<'a, R> {
         // staged: the inner iterators are produced by one region, then flattened in index order
